@@ -126,7 +126,7 @@ resolve_label = Fn(
           "res is Ok ==> final(defs).symbols.defs@[(ast_symbol.item_ref->0).0 as int]->0.value is Integer"
           " && final(defs).symbols.defs@[(ast_symbol.item_ref->0).0 as int]->0.value->Integer_0.val() == address_of(bank_of(old(defs), ctx.bank_ref), ctx.bank_data.cur_position as int)", ["C01", "C02"]),
         C("resolved_means_unchanged",
-          "res == %s ==> expr::value_eq(final(defs).symbols.defs@[(ast_symbol.item_ref->0).0 as int]->0.value, old(defs).symbols.defs@[(ast_symbol.item_ref->0).0 as int]->0.value)" % STABLE, ["C02"]),
+          "res == %s ==> expr::value_eq(final(defs).symbols.defs@[(ast_symbol.item_ref->0).0 as int]->0.value, old(defs).symbols.defs@[(ast_symbol.item_ref->0).0 as int]->0.value)" % STABLE, ["C02", "C09"]),
         C("other_lists_untouched", "final(defs).bankdefs == old(defs).bankdefs && final(defs).instructions == old(defs).instructions && final(defs).data_elems == old(defs).data_elems"
           " && final(defs).res_directives == old(defs).res_directives && final(defs).align_directives == old(defs).align_directives && final(defs).addr_directives == old(defs).addr_directives", ["C02"]),
         C("other_symbols_untouched", "forall|k: int| 0 <= k < old(defs).symbols.defs@.len() && k != (ast_symbol.item_ref->0).0 ==> final(defs).symbols.defs@[k] == old(defs).symbols.defs@[k]", ["C02"]),
@@ -148,7 +148,7 @@ resolve_res = Fn(
     "src/asm/resolver/res.rs", "resolve_res", slot="resolver", ret="res", props=["C02", "C03", "C19"],
     requires=[item_defined("res_directives", "ast_res"), BANK_REQ],
     ensures=pass_contract() + [
-        C("resolved_means_unchanged", "res == %s ==> %s.reserve_size == %s.reserve_size" % (STABLE, idx("res_directives", "ast_res"), oidx("res_directives", "ast_res")), ["C02"]),
+        C("resolved_means_unchanged", "res == %s ==> %s.reserve_size == %s.reserve_size" % (STABLE, idx("res_directives", "ast_res"), oidx("res_directives", "ast_res")), ["C02", "C09"]),
         C("reserve_is_whole_addresses", "res is Ok ==> %s.reserve_size %% bank_of(old(defs), ctx.bank_ref).addr_unit == 0 || bank_of(old(defs), ctx.bank_ref).addr_unit == 0" % idx("res_directives", "ast_res"), ["C06"]),
         C("banks_untouched", "final(defs).bankdefs == old(defs).bankdefs", ["C02"]),
     ],
@@ -162,7 +162,7 @@ resolve_align = Fn(
     "src/asm/resolver/align.rs", "resolve_align", slot="resolver", ret="res", props=["C02", "C03", "C19"],
     requires=[item_defined("align_directives", "ast_align")],
     ensures=pass_contract() + [
-        C("resolved_means_unchanged", "res == %s ==> %s.align_size == %s.align_size" % (STABLE, idx("align_directives", "ast_align"), oidx("align_directives", "ast_align")), ["C02"]),
+        C("resolved_means_unchanged", "res == %s ==> %s.align_size == %s.align_size" % (STABLE, idx("align_directives", "ast_align"), oidx("align_directives", "ast_align")), ["C02", "C09"]),
         C("zero_alignment_rejected_in_last_pass", "res == %s && ctx.is_last_iteration ==> %s.align_size != 0" % (STABLE, idx("align_directives", "ast_align")), ["C06"]),
         C("banks_untouched", "final(defs).bankdefs == old(defs).bankdefs", ["C02"]),
     ],
@@ -173,7 +173,7 @@ resolve_addr = Fn(
     "src/asm/resolver/addr.rs", "resolve_addr", slot="resolver", ret="res", props=["C02", "C03", "C06", "C19"],
     requires=[item_defined("addr_directives", "ast_addr"), BANK_REQ],
     ensures=pass_contract() + [
-        C("resolved_means_unchanged", "res == %s ==> %s.address.val() == %s.address.val()" % (STABLE, idx("addr_directives", "ast_addr"), oidx("addr_directives", "ast_addr")), ["C02"]),
+        C("resolved_means_unchanged", "res == %s ==> %s.address.val() == %s.address.val()" % (STABLE, idx("addr_directives", "ast_addr"), oidx("addr_directives", "ast_addr")), ["C02", "C09"]),
         C("inside_bank_in_last_pass",
           "res == %s && ctx.is_last_iteration ==> %s.address.val() >= bank_of(old(defs), ctx.bank_ref).addr_start.val()"
           " && (bank_of(old(defs), ctx.bank_ref).size is Some ==> (%s.address.val() - bank_of(old(defs), ctx.bank_ref).addr_start.val()) * bank_of(old(defs), ctx.bank_ref).addr_unit < bank_of(old(defs), ctx.bank_ref).size->0)"
@@ -299,7 +299,13 @@ expect_bigint_v = Fn(FE, "expect_bigint", impl="Value", slot="expr", ret="res", 
                    ] + VLOUD)
 expect_error_or_usize_v = Fn(FE, "expect_error_or_usize", impl="Value", slot="expr", ret="res", key="Value::expect_error_or_usize", props=["C19", "C03"],
                    ensures=VLOUD + [C("shape", "res is Ok ==> res->Ok_0 == self && (self is Unknown || self is FailedConstraint || (self is Integer && 0 <= self->Integer_0.val() <= usize::MAX))", ["C19"])])
-value_verified = [expect_usize, expect_nonzero_usize, expect_bigint_v, expect_error_or_usize_v]
+to_bigint_stub = Fn(FE, "to_bigint", impl="ExprString", slot="expr", mode="stub", ret="res", key="ExprString::to_bigint", ensures=[])
+get_bigint_v = Fn(FE, "get_bigint", impl="Value", slot="expr", ret="res", key="Value::get_bigint", props=["C03"],
+                  ensures=[C("some_iff_numeric", "res is Some <==> (self is Integer || self is String)", ["C03"]),
+                           C("integer_value", "self is Integer ==> res->0.val() == self->Integer_0.val()", ["C03"])],
+                  rewrites=[Rewrite(r"&Value::(\w+)\(ref (\w+)\)", r"Value::\1(\2)", count=None, regex=True, rule="R20",
+                                    why="explicit reference patterns `&V(ref x)` crash the installed Verus (panic in pattern lowering); written in the equivalent default-binding-mode form `V(x)` (x is bound by reference either way)")])
+value_verified = [expect_usize, expect_nonzero_usize, expect_bigint_v, expect_error_or_usize_v, to_bigint_stub, get_bigint_v]
 
 # ---- asm::defs::bankdef::define: establishes the data invariant "every defined bank has addr_unit > 0"
 FB = "src/asm/defs/bankdef.rs"
@@ -376,7 +382,7 @@ resolve_constant = Fn(
     requires=[C("symbol_defined", "defined(&old(defs).symbols, ast_symbol.item_ref)", ["C03"]),
               C("is_constant", "ast_symbol.kind is Constant", ["C03"])],
     ensures=pass_contract() + [
-        C("resolved_means_unchanged_unless_frozen", "res == %s && !%s.resolved ==> expr::value_eq(%s.value, %s.value)" % (STABLE, SYM, SYM, OSYM), ["C02"]),
+        C("resolved_means_unchanged_unless_frozen", "res == %s && !%s.resolved ==> expr::value_eq(%s.value, %s.value)" % (STABLE, SYM, SYM, OSYM), ["C02", "C09"]),
         C("frozen_only_in_first_pass_when_statically_known", "%s.resolved && !%s.resolved ==> ctx.is_first_iteration && opts.optimize_statically_known && %s.value_statically_known" % (SYM, OSYM, OSYM), ["C02", "C08"]),
     ],
     rewrites=[Rewrite(r"println!\((?:[^()]|\((?:[^()]|\([^()]*\))*\))*\);", "", regex=True, rule="R7", why="debug printing statement deleted", count=2)],
@@ -399,7 +405,7 @@ resolve_instruction = Fn(
     FIN, "resolve_instruction", slot="resolver", ret="res", props=["C02", "C03"],
     requires=[C("item_defined", "defined(&old(defs).instructions, ast_instr.item_ref)", ["C03"])],
     ensures=pass_contract() + [
-        C("resolved_means_unchanged_unless_frozen", "res == %s && !%s.resolved ==> %s.encoding.val() == %s.encoding.val()" % (STABLE, INS, INS, OINS), ["C02"]),
+        C("resolved_means_unchanged_unless_frozen", "res == %s && !%s.resolved ==> %s.encoding.val() == %s.encoding.val()" % (STABLE, INS, INS, OINS), ["C02", "C09"]),
         C("frozen_only_in_first_pass_when_statically_known", "%s.resolved && !%s.resolved ==> ctx.is_first_iteration && opts.optimize_statically_known && %s.encoding_statically_known" % (INS, OINS, OINS), ["C02", "C08"]),
         C("stores_the_chosen_encoding_with_its_size", "res == %s && !%s.resolved ==> %s.encoding == chosen_encoding(final(report))" % (STABLE, OINS, INS), ["C02", "C01"]),
     ],
